@@ -114,8 +114,19 @@ def framing(ctx, r):
         st.close()
 
 
+def input_tie(ctx, seed, n):
+    """T2-fn: the JSON documents on stdin, byte level — the real ParseTaskInput / ParsePlanInput (os.Stdin redirected) vs ErgoModel.Input"""
+    res = fndiff.run_stream(ctx.ev, ["fn-input", str(seed), str(n)])
+    ctx.tie("T2-fn stdin documents (ParseTaskInput / ParsePlanInput: unknown keys, folded keys, duplicates, null, wrong types, several values)", cases=res["cases"], disagreements=len(res["diffs"]))
+    ctx.count(res["cases"])
+    for d in res["diffs"][:3]:
+        ctx.tie_broken("T2-fn stdin documents", {"first_difference": fndiff.first_difference(d["go"], d["model"]), "kind": d["req"]["kind"],
+                                                 "doc": bytes.fromhex(d["req"]["doc"]).decode("utf-8", "backslashreplace")[:400]})
+
+
 def run(ctx):
     r = gen.Rng(ctx.seed * 1000003 + 11)
+    input_tie(ctx, ctx.seed + 1100, 1500 if ctx.quick else 30000)
     framing(ctx, r.fork())
     for h in range(25 if ctx.quick else 400):
         run_history(ctx, r.fork(), 30, WEIGHTS, oracle)
